@@ -436,16 +436,29 @@ class SyncRpcClient(RpcClient):
         b_pdu = self._prepare_pdu(pdu, encrypt_offsets)
         self._sock.sendall(b_pdu)
 
-        header = self._sock.recv(16)
+        header = self._recv_exactly(16)
         resp_header = PDUHeader.unpack(header)
 
         resp = bytearray(resp_header.frag_len)
         view = memoryview(resp)
         view[:16] = header
-        view = view[16:]
-
-        while view:
-            read = self._sock.recv_into(view)
-            view = view[read:]
+        view[16:] = self._recv_exactly(len(resp) - 16)
 
         return self._process_response(resp, resp_header, resp_type, encrypt_offsets)
+
+    def _recv_exactly(
+        self,
+        length: int,
+    ) -> bytes:
+        # recv can return less data than requested, keep on reading until we
+        # have all the data or the socket was closed by the peer.
+        buffer = bytearray(length)
+        view = memoryview(buffer)
+        while view:
+            read = self._sock.recv_into(view)
+            if not read:
+                raise EOFError(f"Socket closed with {len(view)} bytes of the PDU left to read")
+
+            view = view[read:]
+
+        return bytes(buffer)
